@@ -4,7 +4,7 @@ import hashlib
 from hypothesis import strategies as st
 
 from vf import gen_tx
-from vf.core import Fails, Target, attempt, bx, hx, raised
+from vf.core import Fails, Target, attempt, bx, hx, raised, attempt_owned
 from vf.ref import scriptref as sr
 
 PROPERTY = "C13"
@@ -76,7 +76,7 @@ def check_asm(case):
     got = attempt(bits.script.script, args)
     if not f.expect(not raised(got) and got == want, f"asm/ne-reference/{worst}", repr(got)[:160]):
         return sorted(cls), f
-    dec = attempt(bits.script.decode_script, got)
+    dec = attempt_owned(f, f"disasm/differs-after-caller-edited-earlier-result/{worst}", bits.script.decode_script, got)
     if raised(dec):
         f.add(f"disasm/raises-{dec.kind}/{worst}", dec)
         return sorted(cls), f
@@ -111,7 +111,7 @@ def check_opbytes(case):
     b = sr.assemble(ref)
     f = Fails()
     cls = ["nt:from-bytes"] if any(k == "data" and len(v) > 75 for k, v in ref) else ["from-bytes"]
-    dec = attempt(bits.script.decode_script, b)
+    dec = attempt_owned(f, "disasm-bytes/differs-after-caller-edited-earlier-result", bits.script.decode_script, b)
     if raised(dec):
         f.add(f"disasm-bytes/raises-{dec.kind}", dec)
         return cls, f
@@ -157,7 +157,7 @@ def check_witness(case):
     want = sr.witness_stack(items)
     got = attempt(bits.script.script, [x.hex() for x in items], witness=True)
     f.expect(not raised(got) and got == want, f"witness-ser/ne-reference/{big}", repr(got)[:160])
-    dec = attempt(bits.script.decode_script, want + trailing, witness=True)
+    dec = attempt_owned(f, f"witness-deser/differs-after-caller-edited-earlier-result/{big}", bits.script.decode_script, want + trailing, witness=True)
     if raised(dec):
         f.add(f"witness-deser/raises-{dec.kind}/{big}", dec)
     else:
